@@ -19,6 +19,12 @@ def one(d):
     try:
         subprocess.run(["git", "-C", "/repo", "worktree", "add", "-q", w, "HEAD"], check=True, capture_output=True)
         a = subprocess.run(["git", "-C", w, "apply", os.path.join(d, "patch.diff")], capture_output=True, text=True)
+        note = ""
+        if a.returncode != 0 and meta.get("base_commit_of_repo"):
+            # a later fix commit touched the same lines: fall back to the commit the change was written against
+            subprocess.run(["git", "-C", w, "checkout", "-q", "--detach", meta["base_commit_of_repo"]], capture_output=True)
+            a = subprocess.run(["git", "-C", w, "apply", os.path.join(d, "patch.diff")], capture_output=True, text=True)
+            note = " (on its base commit %s)" % meta["base_commit_of_repo"]
         if a.returncode != 0:
             return name, prop, "PATCH-DOES-NOT-APPLY", ""
         env = dict(os.environ, PYTHONPATH=w + "/src")
@@ -42,7 +48,7 @@ def one(d):
             status = ("CAUGHT (silent as it should be: property holds)" if r.returncode == 0 else "FALSE-ALARM(exit %d)" % r.returncode)
         else:
             status = ("CAUGHT" if r.returncode == 1 else "MISSED(exit %d)" % r.returncode)
-        return name, prop, "%s tests=%s demo_exit=%d" % (status, "pass" if t.returncode == 0 else "FAIL", dm.returncode), ",".join(keys[:3])
+        return name, prop, "%s%s tests=%s demo_exit=%d" % (status, note, "pass" if t.returncode == 0 else "FAIL", dm.returncode), ",".join(keys[:3])
     finally:
         subprocess.run(["git", "-C", "/repo", "worktree", "remove", "--force", w], capture_output=True)
 
